@@ -308,10 +308,10 @@ func dmRandomHints(rng *fw.Rand) (shape int, min, max *[2]int) {
 var dmExhAlphabet = []rune{'1', '7', 'A', 'Z', 'a', 'z', ' ', '*', '>', '\r', '!', '^', 0x05, 0xE9}
 
 func c02(c *fw.Ctx) {
-	c.Rule("run-structured random Latin-1 strings over seven character classes (digits, C40-native, Text-native, X12 separators, EDIFACT punctuation, controls, 0x80-0xFF; run lengths 1-7), all strings of length <= 3 (thorough: <= 4) over a 14-symbol alphabet with one representative of every class, exact-fill families (Base-256 runs of every length, C40/Text/X12 triplets with 1-2 left-over characters), macro 05/06 envelopes, digit strings reaching each of the 30 sizes, shape and min/max hints; per case: dispatch-step bound (hook), writer result xor error, refusal rules from independent capacity bounds, codewords decoded by the independent ISO 16022 decoder and by the library parser, matrix path, sampled image path; distinct = distinct (text, hints)")
+	c.Rule("run-structured random Latin-1 strings over seven character classes (digits, C40-native, Text-native, X12 separators, EDIFACT punctuation, controls, 0x80-0xFF; run lengths 1-7), all strings of length <= 3 (thorough: <= 5) over a 14-symbol alphabet with one representative of every class, exact-fill families (Base-256 runs of every length, C40/Text/X12 triplets with 1-2 left-over characters), macro 05/06 envelopes, digit strings reaching each of the 30 sizes, shape and min/max hints; per case: dispatch-step bound (hook), writer result xor error, refusal rules from independent capacity bounds, codewords decoded by the independent ISO 16022 decoder and by the library parser, matrix path, sampled image path; distinct = distinct (text, hints)")
 	c.Assume("must-succeed when the plain-ASCII cost is at most half the largest admissible capacity; must-fail when a per-character lower bound exceeds it or a rune > U+00FF occurs; between the bounds either outcome is accepted (DESIGN C02)")
 	// exhaustive short strings
-	maxLen := c.Pick(3, 4)
+	maxLen := c.Pick(3, 5)
 	for n := 1; n <= maxLen; n++ {
 		total := 1
 		for i := 0; i < n; i++ {
@@ -439,14 +439,20 @@ func c02(c *fw.Ctx) {
 					return
 				}
 			}
-			// letters (mode switching near capacity)
-			for _, n := range []int{s.DataCW, s.DataCW - 1, s.DataCW * 3 / 2, s.DataCW*3/2 - 1, s.DataCW*3/2 + 1} {
-				if n < 1 {
-					continue
+			// native runs of each packed mode around the symbol's capacity, the symbol being the largest admitted
+			for ai, alpha := range []string{dmClasses[1][:26], dmClasses[2][:26], "*>\rABC019 ", "!\"#$%&'()+,-./:;<=?@[\\]^ AB12"} {
+				per := s.DataCW * 3 / 2
+				if ai == 3 {
+					per = s.DataCW * 4 / 3
 				}
-				o := dmOpts{text: fromAlphabet(r.Rng, dmClasses[1][:26], n), shape: shapeOf(s), max: &[2]int{s.Rows, s.Cols}}
-				if !c02One(r, o, "letters-to-size") {
-					return
+				for _, n := range []int{s.DataCW, s.DataCW - 1, per - 2, per - 1, per, per + 1, per + 2} {
+					if n < 1 {
+						continue
+					}
+					o := dmOpts{text: fromAlphabet(r.Rng, alpha, n), shape: shapeOf(s), max: &[2]int{s.Rows, s.Cols}}
+					if !c02One(r, o, []string{"c40-to-size", "text-to-size", "x12-to-size", "edifact-to-size"}[ai]) {
+						return
+					}
 				}
 			}
 		})
